@@ -38,8 +38,9 @@ from pathlib import Path
 
 ROOT = Path(__file__).resolve().parent.parent
 LEAN_DIR = ROOT / "lean"
-EVIDENCE_DIR = ROOT / "evidence"
-REPLAY_DIR = ROOT / "replays"
+# scratch evaluations (seeded changes, mutated worktrees) must not overwrite the committed evidence: they redirect
+EVIDENCE_DIR = Path(os.environ.get("VERIF_EVIDENCE_DIR", ROOT / "evidence"))
+REPLAY_DIR = Path(os.environ.get("VERIF_REPLAY_DIR", ROOT / "replays"))
 CORPUS_DIR = ROOT / "corpus"
 FINDINGS_FILE = ROOT / "known_findings.json"
 REPO = Path(os.environ.get("LEASPY_REPO", "/repo"))
